@@ -35,6 +35,11 @@ type Plan struct {
 }
 
 const (
+	routeDirect = 0
+	routeHTTP   = 1
+)
+
+const (
 	stopNever  = 0
 	stopStop   = 1 // Fetcher.Stop()
 	stopCancel = 2 // cancel the context given to Run / Scan
@@ -72,6 +77,10 @@ type Case struct {
 	// options taken from the package defaults, and earlier independent fetches in the same process
 	Defaults bool   // build the options from scanner.Default{Fetcher,Scanner}Options(), touching only the fields that differ
 	Warm     []Warm // fetches run before the main object is built, each on DefaultFetcherOptions() against its own log
+
+	// how the code under test reaches the scripted log: 0 = the log implements scanner.LogClient itself,
+	// 1 = through the repository's real client.LogClient over an in-process HTTP round tripper
+	Route int
 
 	// scanner only
 	Matcher     int
@@ -229,7 +238,7 @@ func genCase(t *rapid.T, scan bool) Case {
 		var p Plan
 		nErr := weighted(t, "nErr", 10, 3, 2, 1, 1)
 		for j := 0; j < nErr; j++ {
-			k := []int{err429, err503, err500, errNet, errEOF, errTimeout, errCanceled}[rapid.IntRange(0, 6).Draw(t, "errKind")]
+			k := []int{err429, err503, err500, errNet, errEOF, errTimeout, errCanceled, errCutBody, errGarbled}[rapid.IntRange(0, 8).Draw(t, "errKind")]
 			if weighted(t, "retriable", 7, 1) == 1 {
 				k = errUnavailable
 			}
@@ -331,6 +340,10 @@ func genCase(t *rapid.T, scan bool) Case {
 	}
 	if !scan {
 		c.PreStop = weighted(t, "preStop", 7, 1) == 1
+	}
+
+	if weighted(t, "route", 3, 2) == 1 {
+		c.Route = routeHTTP
 	}
 
 	// package defaults: several independent objects built one after the other in one process
